@@ -153,6 +153,46 @@ def h_defaults_and_omitted(cx, angles, Aspec, T):
     cx.observe("b", [b_if, b_net, b_alg])
 
 
+def h_after_update(cx, angles, Aspec, T, which):
+    """history: every checker has answered once (with other, loose tolerances), then constraint `which` is replaced through the
+    public update_constraint (same name, new coefficients, new limit); the three checkers are judged on the UPDATED network"""
+    env.install(cx)
+    from acnportal.algorithms.utils import infrastructure_constraints_feasible as icf
+    import numpy as np
+
+    Acn = acn()
+    n, m = len(angles), len(Aspec)
+    A = [list(r) for r in Aspec]
+    limits = [cx.real("L%d" % i, lo=0, hi=100) for i in range(m)]
+    net, iface, ids = build(cx, angles, A, limits)
+    Z = np.zeros((n, T))
+    net.is_feasible(Z, violation_tolerance=3.0, relative_tolerance=0.5)
+    iface.is_feasible({ids[j]: list(Z[j]) for j in range(n)}, violation_tolerance=3.0, relative_tolerance=0.5)
+    icf(Z, iface.infrastructure_info())
+    iface.get_constraints()
+    new_row = [cx.real("u%d" % j, lo=-2, hi=2) for j in range(n)]
+    new_lim = cx.real("L_new", lo=0, hi=100)
+    net.update_constraint("c%d" % which, Acn.Current({ids[j]: new_row[j] for j in range(n)}), new_lim)
+    cx.tag("updated")
+    # the updated constraint is re-appended: rows and limits in the network's new order
+    A2 = [A[i] for i in range(m) if i != which] + [new_row]
+    L2 = [limits[i] for i in range(m) if i != which] + [new_lim]
+    X, M = sched(cx, n, T)
+    strict = oracle(angles, A2, L2, X, 1e-5, 1e-7, 1 - BAND)
+    loose = oracle(angles, A2, L2, X, 1e-5, 1e-7, 1 + BAND)
+    b_net = bool(net.is_feasible(M))
+    sandwich(cx, "network_after_update", b_net, strict, loose)
+    b_if = bool(iface.is_feasible({ids[j]: list(M[j]) for j in range(n)}))
+    cx.check("after_update:interface==network", b_if == b_net)
+    b_alg = bool(icf(M, iface.infrastructure_info()))
+    sandwich(cx, "algorithm_after_update", b_alg, strict, loose)
+    cons = iface.get_constraints()
+    cx.check("after_update:limits_seen_by_schedulers", len(cons.magnitudes) == m and all(bool(eq(cons.magnitudes[i], L2[i]).weak() if cx.mode == "conc" else True) for i in range(m)))
+    for i in range(m):
+        cx.check("after_update:limit[%d]" % i, eq(cons.magnitudes[i], L2[i]))
+    cx.observe("b", [b_net, b_if, b_alg])
+
+
 def h_linear(cx, angles, Aspec, T, sym_coeff):
     """linear relaxation is conservative for non-negative schedules, on both implementations"""
     env.install(cx)
@@ -253,6 +293,10 @@ def jobs(tier):
         js.append(Job("defaults_omitted[ang=%s,A=%s,T=%d]" % (ang, A, T), h_defaults_and_omitted, dict(angles=ang, Aspec=A, T=T), functions=FUNCS,
                       expect_tags=("interface_mapping:accepted", "interface_mapping:rejected"), max_paths=5000, timeout=2400,
                       bounds=dict(stations=len(ang), constraints=len(A), periods=T, tolerances="network defaults 1e-5 / 1e-7"), cost=4 ** (len(A) * T)))
+    for ang, A, T, which in ([((0, 120), MIXED[2][0], 1, 0), ((30, -90, 150), MIXED[3][0], 1, len(MIXED[3][0]) - 1)] if q else
+                             [((0, 120), A_, 2, w) for A_ in MIXED[2] for w in range(len(A_))] + [((30, -90, 150), A_, 1, w) for A_ in MIXED[3][:2] for w in range(len(A_))]):
+        js.append(Job("after_update[ang=%s,A=%s,T=%d,which=%d]" % (ang, A, T, which), h_after_update, dict(angles=ang, Aspec=A, T=T, which=which), functions=FUNCS + ["acnportal.acnsim.network.charging_network.ChargingNetwork.update_constraint", "acnportal.acnsim.interface.Interface.get_constraints"],
+                      expect_tags=("updated",), max_paths=5000, timeout=2400, bounds=dict(stations=len(ang), constraints=len(A), periods=T, history="all three checkers queried with loose tolerances, update_constraint(#%d), queried again" % which), cost=20))
     lin = [((30, 150), MIXED[2][0], 1, False), ((0, 120), ((0, 0),), 1, True), ((30, -90, 150), MIXED[3][2], 1, False), ((30, 150), MIXED[2][1], 2, False)] if q else \
         [(ang, A, 2, False) for ang in ((30, 150), (0, 120), (0, 0)) for A in MIXED[2]] + [((0, 120), ((0, 0),), 1, True), ((30, -90), ((0, 0),), 2, True)] + [((30, -90, 150), A, 2, False) for A in MIXED[3]]
     for ang, A, T, sc in lin:
